@@ -306,8 +306,9 @@ def expand_derive_clone(items, ctx, modpath):
         if it.kind != "struct" or it.body is None:
             continue
         ient = ctx.ov.items.get(modpath + "::" + str(it.name))
-        if not (ient and ient.get("private")):
+        if not (ient and (ient.get("private") or ient.get("expand_clone"))):
             continue
+        ient["used"] = True
         hit = None
         for ai, a in enumerate(it.attrs):
             m = re.match(r"#\s*\[\s*derive\s*\((.*)\)\s*\]\s*$", text_of(a), re.S)
